@@ -167,6 +167,10 @@ func (fx *FnCtx) noteHeapSymbol(h *Term, name string, leaf Leaf) {
 		return
 	}
 	fx.root.heapAxiomDone[h] = true
+	if fx.root.boundedK > 0 {
+		// bounded instance search keeps VCs quantifier-free; loads carry ground range facts
+		return
+	}
 	tc := fx.tc
 	needRange := false
 	if leaf.Kind == "int" && tc.Mode == ModeInt {
@@ -334,6 +338,25 @@ func (fx *FnCtx) copyElems(st *State, pc *Term, elem types.Type, dst, dstStart, 
 			jj := tc.IdxNum(int64(j))
 			v := fx.readElem(pre, elem, src, tc.IdxAdd(srcStart, jj))
 			fx.writeElem(st, elem, dst, tc.IdxAdd(dstStart, jj), v)
+		}
+		return
+	}
+	if fx.root.boundedK > 0 {
+		// bounded instance search: copies of at most 8 elements, done by explicit guarded stores
+		// so that the VC stays quantifier-free
+		const nq = 4
+		fx.assume(Implies(pc, tc.IdxLe(n, tc.IdxNum(nq))))
+		pre := st.Clone()
+		for j := int64(0); j < nq; j++ {
+			jj := tc.IdxNum(j)
+			in := tc.IdxLt(jj, n)
+			sv := fx.readElem(pre, elem, src, tc.IdxAdd(srcStart, jj))
+			dv := fx.readElem(st, elem, dst, tc.IdxAdd(dstStart, jj))
+			m, err := iteValue(in, sv, dv)
+			if err != nil {
+				fx.fail("bounded copy: %v", err)
+			}
+			fx.writeElem(st, elem, dst, tc.IdxAdd(dstStart, jj), m)
 		}
 		return
 	}
